@@ -159,6 +159,11 @@ def group_variants(gs):
     yield "listed", g0
     yield "reversed", [list(reversed(g)) for g in reversed(g0)]
     yield "arrays", [np.array(g) for g in g0]
+    # the members of a group in every other order a user may write them in (a group is a set of features)
+    if any(len(g) > 2 for g in g0):
+        yield "rotated", [g[1:] + g[:1] for g in g0]
+        yield "tail-swapped", [g[:-2] + [g[-1], g[-2]] if len(g) > 1 else g for g in g0]
+        yield "head-swapped", [[g[1], g[0]] + g[2:] if len(g) > 1 else g for g in g0]
 
 
 def check_glasso(ctx, cases):
